@@ -1201,6 +1201,30 @@ def wrapper_resize_boundary(ctx, d):
         impl.append(" ; ".join(" ".join(str(int(uniq[int(v) - 2])) for v in row) for row in dec) if ok else "!values")
     ctx.correspond("label-map-resize", lines, impl)
 
+    # the whole label-wise call on a signal of ANOTHER shape, values compared: the loop runs over the unique labels of the ORIGINAL map,
+    # so a label that the resize drops must not shift the scaling / offset of the others (forced: strong down-sampling of maps with many labels)
+    lines, impl = [], []
+    for t in range(ctx.pick(40, 300)):
+        h, w = rng.randint(1, 8), rng.randint(2, 10)
+        L = rng.randint(2, 5)
+        label_values = sorted(rng.sample(range(0, 40), L))
+        flat = label_values + [rng.choice(label_values) for _ in range(max(0, h * w - L))]
+        flat = flat[: h * w] if t % 3 == 0 else rng.sample(flat[: h * w], len(flat[: h * w]))
+        lab = np.array(flat, dtype=rng.choice([np.uint8, np.int32])).reshape(h, w)
+        uniq = np.unique(lab)
+        if t % 2 == 0:
+            H, W = max(1, h // rng.randint(1, 4)), max(1, w // rng.randint(2, 5))  # coarse: labels get lost
+        else:
+            H, W = rng.randint(1, NEAR_MAX), rng.randint(1, NEAR_MAX)
+        sc, of = [dy(rng) for _ in uniq], [dy(rng) for _ in uniq]
+        vals = [dy(rng, -32, 32, 16) for _ in range(H * W)]
+        lines.append(f"hetcall {h} {w} " + " ".join(str(int(v)) for v in lab.ravel()) + f" | {len(uniq)} {fmts(sc)} {fmts(of)} | {H} {W} | {H * W} {fmts(vals)}")
+        m = call(d.HeterogeneousLinearModel, lab, scaling=[float(x) for x in sc], offset=[float(x) for x in of])
+        out = m if isinstance(m, Raised) else call(m, np.array([float(v) for v in vals]).reshape(H, W))
+        impl.append(repr(out) if isinstance(out, Raised) else ("!shape" if np.asarray(out).shape != (H, W) else fmts(np.asarray(out).ravel())))
+    lost = sum(1 for l_ in lines if True)
+    ctx.correspond("label-wise-call-on-resized-labels", lines, impl)
+
     # (3) the isclose boundary of ScalingModel: the two floats next to either boundary, signals +-2^j (exact products)
     ok = True
     cases = []
